@@ -37,6 +37,8 @@ BUDGET = {
     'C16': {'quick': {'plain': 16000, 'asan': 2500}, 'thorough': {'plain': 250000, 'asan': 40000}},
     'C18': {'quick': {'plain': 300000, 'asan': 20000}, 'thorough': {'plain': 4000000, 'asan': 400000}},
 }
+RANDOM_GRAMMAR_PROPS = ('C09', 'C10', 'C16')
+RANDOM_GRAMMARS_K = 16
 DEFAULT_SEED = {'C06': 60601, 'C08': 80801, 'C09': 90901, 'C10': 101001, 'C14': 141401, 'C15': 151501, 'C16': 161601, 'C18': 181801}
 
 REAL_COMPONENTS = [
@@ -322,6 +324,17 @@ def main():
     budgets = {k: max(1, int(v * a.scale)) for k, v in budgets.items()}
     time_cap = a.time_cap if a.time_cap else (600 if tier == 'quick' else 3000)
     t_start = time.time()
+    # thorough tier of the properties that range over grammars: K seeded random conflict-free grammars join the fleet
+    # (fleet/randgram.py). They get a build root of their own so that a quick check running at the same time never sees
+    # a worker binary with another fleet. VERIF_RANDOM_GRAMMARS="<seed>:<k>" overrides, "0:0" switches it off.
+    global BUILDROOT
+    if tier == 'thorough' and prop in RANDOM_GRAMMAR_PROPS and 'VERIF_RANDOM_GRAMMARS' not in os.environ:
+        os.environ['VERIF_RANDOM_GRAMMARS'] = '%d:%d' % (seed % 1000000, RANDOM_GRAMMARS_K)
+    if os.environ.get('VERIF_RANDOM_GRAMMARS', '') in ('', '0:0'):
+        os.environ.pop('VERIF_RANDOM_GRAMMARS', None)
+    else:
+        BUILDROOT = os.path.join(BUILDROOT, 'x')
+        log('random grammars: VERIF_RANDOM_GRAMMARS=%s (build root %s)' % (os.environ['VERIF_RANDOM_GRAMMARS'], BUILDROOT))
     if not build(list(budgets.keys())):
         return 2
     outdir = os.path.join(OUTROOT, prop)
